@@ -192,6 +192,21 @@ func runC14(rec *vk.Rec, hi int, h string) {
 		if !banned && (!subOK || !pubOK) {
 			fail("unbanned-key-refused/"+where, fmt.Sprintf("on %s the key is not banned but was refused (subscribe=%v publish=%v)", s.name, subOK, pubOK))
 		}
+		if banned && !violated && where == "same-broker" {
+			// other spellings of the banned key (characters a lenient decoder would skip): whether the broker takes them for the
+			// key at all is not asserted, but while the key is banned none of them may be accepted
+			for _, alt := range []string{key + "\n", key[:16] + "\r\n" + key[16:], key + "=", " " + key, key[:31] + "\n" + key[31:]} {
+				so, po, err := s.use(alt, fmt.Sprintf("alt-%d-%d", hi, len(trace)))
+				if err != nil {
+					break // such a request may end the connection; not this property's business
+				}
+				rec.Inc("use_comparisons_alternative_spellings")
+				if so || po {
+					fail("banned-key-accepted/alternative-spelling", fmt.Sprintf("on %s the banned key written as %q was accepted (subscribe=%v publish=%v)", s.name, alt, so, po))
+					break
+				}
+			}
+		}
 	}
 	toggle := func(to bool) {
 		mu.Lock()
